@@ -302,6 +302,17 @@ def truth_table(ex, sh, tag):
         for c in range(tb[0]):
             for k in range(sh.nph):
                 t[(k, j, c)] = decided(ex, 'ph%d' % k, '%s.ex%d.col%d' % (tag, j, c))
+            # does the value contain something the regex crate's `Captures::expand` would treat as a group reference?
+            # (asked only by code that expands replacements instead of inserting them literally)
+            for r in range(tb[1]):
+                vn = '%s.ex%d.r%d.c%d' % (tag, j, r, c)
+                b = z3.Bool('has-$-reference(%s)' % vn)
+                yes, no = ex.check(b), ex.check(z3.Not(b))
+                t[('$', vn)] = yes if yes != no else None
+    # tags that happen to be the same word (asked only by code that compares tags)
+    tags = [tag + '.tag0', tag + '.tag1'] + ['%s.ex%d.tag' % (tag, j) for j in range(len(sh.tables)) if j not in sh.untagged]
+    for a, b in itertools.combinations(tags, 2):
+        t[('tag', a, b)] = decided(ex, a, b)
     return t
 
 
@@ -323,11 +334,11 @@ class Realizer:
             return n
         self.ok = True
         for tag, sh in scen:
-            for (k, j, c), v in truths[tag].items():
+            for (k, j, c), v in [kv for kv in truths[tag].items() if kv[0][0] not in ('$', 'tag')]:
                 if v:
                     parent[find('ph%d' % k)] = find('%s.c%d.%d' % (tag, j, c))
         for tag, sh in scen:
-            for (k, j, c), v in truths[tag].items():
+            for (k, j, c), v in [kv for kv in truths[tag].items() if kv[0][0] not in ('$', 'tag')]:
                 if v is False and find('ph%d' % k) == find('%s.c%d.%d' % (tag, j, c)):
                     self.ok = False
             for j, tb in enumerate(sh.tables):
@@ -336,6 +347,24 @@ class Realizer:
         cls = {}
         self.name = {n: 'n%d' % cls.setdefault(find(n), len(cls)) for n in sorted(nodes)}
         self.lit, self.val = {}, {}
+        # tags decided equal on the path are written as the same word
+        tparent = {}
+
+        def tfind(n):
+            tparent.setdefault(n, n)
+            while tparent[n] != n:
+                n = tparent[n]
+            return n
+        for tag, sh in scen:
+            for key, v in truths[tag].items():
+                if key[0] == 'tag' and v:
+                    ra, rb = sorted((tfind(key[1]), tfind(key[2])))
+                    tparent[rb] = ra
+        for tag, sh in scen:
+            for key, v in truths[tag].items():
+                if key[0] == 'tag' and v is False and tfind(key[1]) == tfind(key[2]):
+                    self.ok = False
+        self.tagname = {n: tfind(n) for n in list(tparent)}
 
     def lit_text(self, i):
         return self.lit.setdefault(i, '%s%d' % (LIT_TEXTS[len(self.lit) % len(LIT_TEXTS)], len(self.lit)))
@@ -347,7 +376,8 @@ class Realizer:
         return out
 
     def block(self, sh, tag, ind):
-        L = ['%s@%s.tag0 @%s.tag1' % (ind, tag, tag), '%sScenario Outline: %s' % (ind, self.tmpl_text(sh.name, tag + '.name'))]
+        tn = lambda x: self.tagname.get(x, x)  # noqa
+        L = ['%s@%s @%s' % (ind, tn(tag + '.tag0'), tn(tag + '.tag1')), '%sScenario Outline: %s' % (ind, self.tmpl_text(sh.name, tag + '.name'))]
         for i, s in enumerate(sh.steps):
             L.append('%s  Given %s' % (ind, self.tmpl_text(s['value'], '%s.s%d.v' % (tag, i))))
             if s['doc'] is not None:
@@ -356,7 +386,7 @@ class Realizer:
                 for r, row in enumerate(s['table']):
                     L.append('%s    | %s |' % (ind, ' | '.join(self.tmpl_text(c, '%s.s%d.t%d.%d' % (tag, i, r, k)) for k, c in enumerate(row))))
         for j, tb in enumerate(sh.tables):
-            L += ([] if j in sh.untagged else ['%s  @%s.ex%d.tag' % (ind, tag, j)]) + ['%s  Examples:' % ind]
+            L += ([] if j in sh.untagged else ['%s  @%s' % (ind, tn('%s.ex%d.tag' % (tag, j)))]) + ['%s  Examples:' % ind]
             if tb is None:
                 continue
             nc, nr = tb
@@ -364,8 +394,15 @@ class Realizer:
             for r in range(nr):
                 cells = []
                 for c in range(nc):
-                    v = '%s%d' % (VAL_TEXTS[len(self.val) % len(VAL_TEXTS)], len(self.val))
-                    self.val['%s.ex%d.r%d.c%d' % (tag, j, r, c)] = v
+                    vn = '%s.ex%d.r%d.c%d' % (tag, j, r, c)
+                    dollar = self.truths[tag].get(('$', vn))
+                    if dollar is True:
+                        v = 'US${1}z%d' % len(self.val)               # `${1}` = capture group 1 of the template regex
+                    elif dollar is False:
+                        v = '%s%d' % ([x for x in VAL_TEXTS if '$' not in x][len(self.val) % 5], len(self.val))
+                    else:
+                        v = '%s%d' % (VAL_TEXTS[len(self.val) % len(VAL_TEXTS)], len(self.val))
+                    self.val[vn] = v
                     cells.append(v)
                 L.append('%s    | %s |' % (ind, ' | '.join(cells)))
         return L
@@ -379,6 +416,10 @@ class Realizer:
                 out += '<%s>' % self.name[p[1]]
             elif p[1] == 'lit:""':
                 out += ''
+            elif p[1].startswith('expand('):
+                # what `Captures::expand` makes of the value chosen for a "has a $-reference" value: `${1}` -> group 1
+                vn, ph = p[1][len('expand('):-1].split('|')
+                out += self.val[vn].replace('${1}', self.name.get(ph, ph))
             else:
                 out += self.val[p[1]]
         return out
@@ -395,6 +436,7 @@ def realize(sh, tag, truth):
     for k, v in list(names.items()):
         if k.startswith(tag + '.c'):
             names[k[len(tag) + 1:]] = v
+    names['__tagname__'] = dict(R.tagname)
     return text, R.render, names
 
 
@@ -452,7 +494,7 @@ def native_judge(sh, tag, truth, got, render, name):
             want.append(('err', set(name[p] for p in x[1])))
         else:
             d = x[1]
-            want.append(('ok', {'name': render(d['name']), 'tags': ['@' + t if False else t for t in d['tags']],
+            want.append(('ok', {'name': render(d['name']), 'tags': [name.get('__tagname__', {}).get(t, t) for t in d['tags']],
                                 'steps': [{'value': render(s['value']), 'doc': render(s['doc']) if s['doc'] is not None else None,
                                            'table': [[render(c) for c in row] for row in s['table']] if s['table'] is not None else None} for s in d['steps']]}))
     unknown = [w for w in want if w[0] == 'err']
@@ -680,6 +722,7 @@ def _feature_level(chk, ob, ee, top, rule):
 PROP = ['C16']
 
 
+@common.part
 def obligations(chk, prop):
     PROP[0] = prop
     try:
